@@ -46,7 +46,7 @@ def mandatory_bins(tier):
     b = ["len_mod16_%d" % i for i in range(16)] + ["trailing_zeros_%d" % z for z in range(18)]
     b += ["all_zero_content", "via_set_config", "via_direct_construction", "framing_bf3", "framing_bec2", "needle_scan", "needle_session_key", "needle_security_code",
           "needle_customer_key", "needle_plaintext_block", "key_ends_00", "default_key", "cipher_unregistered", "cipher_fails_at_call", "cipher_fails_at_first_call",
-          "cipher_fails_at_last_call", "fault_stream", "fault_path", "read_back_with_key", "long_content", "content_longer_than_1024", "rewrite_after_content_change", "rewrite_after_in_place_content_change", "set_config_over_preexisting_plain_configuration", "target_is_a_file_name", "read_back_without_mac_check", "rewrite_of_a_read_back_object"]
+          "cipher_fails_at_last_call", "fault_stream", "fault_path", "read_back_with_key", "long_content", "content_longer_than_1024", "rewrite_after_content_change", "rewrite_after_in_place_content_change", "set_config_over_preexisting_plain_configuration", "target_is_a_file_name", "read_back_without_mac_check", "rewrite_of_a_read_back_object", "rewrite_under_another_key"]
     return b
 
 
@@ -229,6 +229,59 @@ def check_case(ns, ctx, content, declared, key, framing, via, specs, conf, rp):
     except Exception as e:
         ctx.violation("read_or_rewrite_of_written_file_raises", {"exc": fmt_exc(e)}, rp)
         return
+    # (b'') key changes: the object that was READ under this key is written under ANOTHER key; the key of a BEC2 object is
+    # reassigned after construction; one Bf3File sits in two BEC2 objects with different keys.  Every file written must hold
+    # the content as CBC ciphertext under ITS key and read back with it.
+    if (len(content) + key[-1]) % 3 == 0:
+        k2 = bytes((b ^ 0xA7) for b in key[::-1])
+
+        def stored_ok(text_, k_, what):
+            _, bin_ = L.parse_text(text_)
+            ents_ = L.parse_bf3(bin_, k_) if framing == "bf3" else L.parse_body(bin_, L.parse_bec2_header(bin_)[1], k_)
+            ctx.mon("stored_payload_vs_openssl")
+            if ents_[-1].payload != ossl.aes_cbc(k_, ossl.ZERO_IV, ossl.pad0(content), True):
+                under_old = ents_[-1].payload == exp
+                ctx.violation("stored_payload_not_under_the_files_key:" + what + (":still_ciphertext_of_the_previous_key" if under_old else ""), {"len": len(content)}, rp)
+                return False
+            return True
+
+        try:
+            ctx.bin("rewrite_under_another_key")
+            b4 = io.StringIO()
+            if framing == "bf3":
+                back2.write_file(b4, k2)
+                if stored_ok(b4.getvalue(), k2, "read_object_written_under_another_key"):
+                    d = G.diff_file(BF.Bf3File.read_file(io.StringIO(b4.getvalue()), True, k2), mcase)
+                    if d:
+                        ctx.violation("rewrite_under_another_key_reads_back_differently:" + d[0].split("[")[0], {"diff": d}, rp)
+            else:
+                nb = B.Bec2File(back2.bf3file, list(back2.auth_blocks.values()), k2)
+                nb.write_file(b4, GB.write_encryptors(ns, specs))
+                ok = stored_ok(b4.getvalue(), k2, "read_object_written_under_another_key")
+                # the key attribute of the first object reassigned after construction
+                k3 = bytes((b ^ 0x3C) for b in key)
+                bf.session_key = k3
+                b5 = io.StringIO()
+                bf.write_file(b5, GB.write_encryptors(ns, specs))
+                ok = stored_ok(b5.getvalue(), k3, "session_key_attribute_reassigned") and ok
+                # the same Bf3File in a second BEC2 object with its own key
+                k4 = bytes((b ^ 0x99) for b in key)
+                other = B.Bec2File(f, GB.real_auth_blocks(ns, specs), k4)
+                b6, b7 = io.StringIO(), io.StringIO()
+                other.write_file(b6, GB.write_encryptors(ns, specs))
+                bf.write_file(b7, GB.write_encryptors(ns, specs))
+                ok = stored_ok(b6.getvalue(), k4, "one_bf3file_in_two_bec2_objects") and stored_ok(b7.getvalue(), k3, "one_bf3file_in_two_bec2_objects") and ok
+                if ok:
+                    for t_, k_ in ((b4, k2), (b5, k3), (b6, k4)):
+                        r_ = B.Bec2File.read_file(io.StringIO(t_.getvalue()), GB.read_encryptors(ns, specs), True)
+                        d = G.diff_file(r_.bf3file, mcase)
+                        if d or bytes(r_.session_key) != k_:
+                            ctx.violation("rewrite_under_another_key_reads_back_differently:" + (d[0].split("[")[0] if d else "session_key"), {"diff": d}, rp)
+                            break
+                bf.session_key = key
+        except Exception as e:
+            ctx.violation("rewrite_under_another_key_fails", {"exc": fmt_exc(e)}, rp)
+            return
     # ---- history: the SAME object is changed and written again under the same key ---------------------
     if len(content) <= 200:
         ctx.bin("rewrite_after_content_change")
